@@ -65,8 +65,8 @@ def main():
         demo_dir = os.path.join(wt, meta["demo_pkg_dir"].replace(wt + "/", "").lstrip("/"))
         demo_dst = os.path.join(demo_dir, "zz_seed_demo_test.go")
         demo_cmd = meta["demo_cmd"]
-        if "GOFLAGS" not in demo_cmd:
-            demo_cmd = demo_cmd
+        if demo_cmd.startswith("cp ") and "&&" in demo_cmd:  # the copy is done here
+            demo_cmd = demo_cmd.split("&&", 1)[1].strip()
         # hide seed_out so that ./... does not pick up its test files
         os.rename(os.path.join(wt, "seed_out"), hidden)
         try:
